@@ -89,16 +89,29 @@ def _load():
 
 # ------------------------------------------------------------------ replay
 
-def _real_data(model, pattern):
+def _real_data(model, pattern, keep_zero=False):
     import numpy as np
     import pandas as pd
     n = len(pattern)
     # the model's values are mapped into a physically sane range (the real fit must be able to run)
     gas = [min(max(abs(float(model.get(f"gas{k}") or (50.0 + 10 * k))), 1.0), 1e4) for k in range(n)]
-    pr = [min(max(float(model.get(f"pr{k}") or (3000.0 - 100 * k)), 500.0), 4000.0) for k in range(n)]
+    raw = [float(model.get(f"pr{k}") or (3000.0 - 100 * k)) for k in range(n)]
+    if any(not 500.0 <= v <= 4000.0 for v in raw):
+        # the solver's pressures lie outside the range in which the real fit can run: keep their ORDER (which day carries the
+        # highest frac-face pressure is what the limits depend on), spread over 1500 .. 3500 psi
+        uniq = sorted(set(raw))
+        raw = [1500.0 + 2000.0 * uniq.index(v) / max(len(uniq) - 1, 1) for v in raw]
+    pr = [min(max(v, 500.0), 4000.0) for v in raw]
     pr = [np.nan if pattern[k] == "nan" else pr[k] for k in range(n)]
     gas = [0.0 if pattern[k] == "zero" else np.nan if pattern[k] == "gasnan" else abs(gas[k]) + 1e-3 for k in range(n)]
     # "extragap": a productive day with a pressure reading whose OTHER column (water rate, choke, ...) has a gap: it stays
+    if keep_zero:
+        # with the zero-production filter off, a day the solver's model gives no production stays a zero-rate day (a shut-in
+        # day whose pressure reading is part of the frac-face history)
+        for k in range(n):
+            g = model.get(f"gas{k}")
+            if g is not None and float(g) <= 0 and pattern[k] == "ok":
+                gas[k] = 0.0
     extra = [np.nan if pattern[k] == "extragap" else float(k) for k in range(n)]
     return pd.DataFrame({"Days": np.arange(n) + 1, "Gas": gas, "Pressure": pr, "Extra": extra})
 
@@ -115,7 +128,7 @@ def replay_fit(model, pattern=("ok", "ok", "ok", "ok"), filt=True, window=None, 
     import warnings
     from bluebonnet.forecast import fit_production_pressure
     from bluebonnet.fluids import build_pvt_gas
-    data = _real_data(model, pattern)
+    data = _real_data(model, pattern, keep_zero=not filt)
     if dup_labels:
         data.index = _dup_labels(len(data))
     gv = {"N2": 0.0, "H2S": 0.0, "CO2": 0.0, "Gas Specific Gravity": 0.65, "Reservoir Temperature (deg F)": 200.0}
